@@ -29,7 +29,7 @@ from . import rustsrc
 class WeaveError(Exception):
     """lost anchor / unsupported construct: exit 2, never an alarm"""
 
-DIRECTIVES = ('@unit', '@edition', '@verus-args', '@raw', '@item', '@opt', '@lit', '@re', '@dropline', '@template', '@uses', '@assumed', '@import', '@import-lit', '@import-skip')
+DIRECTIVES = ('@unit', '@edition', '@verus-args', '@raw', '@item', '@opt', '@lit', '@re', '@dropline', '@template', '@uses', '@assumed', '@import', '@import-lit', '@import-skip', '@unit-re')
 
 @dataclass
 class ItemSpec:
@@ -48,6 +48,7 @@ class Unit:
     verus_args: list = field(default_factory=list)
     sections: list = field(default_factory=list)    # ('raw', [(lineno, text)]) | ('item', ItemSpec)
     assumed: list = field(default_factory=list)     # (file, item path, note): functions with an assumed contract
+    unit_re: list = field(default_factory=list)     # [(pattern, repl)] T4 type-name bindings applied to every item
     path: str = ''
 
 def parse_vc(path):
@@ -64,6 +65,8 @@ def parse_vc(path):
                 cur = ('raw', [], rest); u.sections.append(cur); mode = 'raw'
             elif d == '@import':
                 cur = ('import', {'unit': rest, 'lits': [], 'skip': []}); u.sections.append(cur); mode = 'import'
+            elif d == '@unit-re':
+                a = json.loads(rest); u.unit_re.append((a[0], a[1]))
             elif d == '@import-lit':
                 cur[1]['lits'].append(json.loads(rest))
             elif d == '@import-skip':
@@ -174,23 +177,12 @@ def extract_item(repo, spec: ItemSpec, cache):
     text = src[ls:it.end]
     return text, it
 
-def transform(text, it_kind, spec: ItemSpec, log):
+def transform(text, it_kind, spec: ItemSpec, log, unit_re=()):
     """Apply the mechanical rules to the extracted text; every application is logged."""
     name = spec.path
-    if it_kind == 'fn':
-        body, ret = rustsrc.fn_signature_parts(text)
-        # T2a: body brace on its own line ; T2c: named return value
-        if text[body] == '{' and 'nosplit' not in spec.opts:
-            indent = re.match(r'\s*', text).group(0)
-            head = text[:body].rstrip()
-            tail = text[body:]
-            if ret and spec.opts.get('ret'):
-                rs, re_ = ret
-                rty = text[rs:re_].strip()
-                head = text[:rs] + ' (' + spec.opts['ret'] + ': ' + rty + ')' + text[re_:body]
-                head = head.rstrip()
-                log.append({'rule': 'T2c', 'item': name, 'what': 'named return value `%s: %s`' % (spec.opts['ret'], rty)})
-            text = head + '\n' + indent + tail
+    for pat, repl in unit_re:
+        text, n = re.subn(pat, repl, text, flags=re.M)
+        if n: log.append({'rule': 'T4', 'item': name, 'before': pat, 'after': repl, 'count': n})
     if it_kind in ('struct', 'enum') and 'pubfields' in spec.opts:
         # T1: visibility only (Verus lets contracts mention visible fields only); cfg_attr/doc lines inside the declaration go (T0)
         out = []
@@ -226,6 +218,20 @@ def transform(text, it_kind, spec: ItemSpec, log):
                 raise WeaveError('lost anchor: regex rewrite matched %d times (expected %d) in %s: %r' % (n, count, name, old))
         log.append({'rule': 'T5' if kind == 'lit' else 'T5re', 'item': name, 'before': old, 'after': new, 'count': count})
     if it_kind == 'fn':
+        body, ret = rustsrc.fn_signature_parts(text)
+        # T2a: body brace on its own line ; T2c: named return value
+        if text[body] == '{' and 'nosplit' not in spec.opts:
+            indent = re.match(r'\s*', text).group(0)
+            head = text[:body].rstrip()
+            tail = text[body:]
+            if ret and spec.opts.get('ret'):
+                rs, re_ = ret
+                rty = text[rs:re_].strip()
+                head = text[:rs] + ' (' + spec.opts['ret'] + ': ' + rty + ')' + text[re_:body]
+                head = head.rstrip()
+                log.append({'rule': 'T2c', 'item': name, 'what': 'named return value `%s: %s`' % (spec.opts['ret'], rty)})
+            text = head + '\n' + indent + tail
+    if it_kind == 'fn':
         # T3: panics are renamed by the prefix of their message literal; the local macros map them to abort shims:
         #   "BUG..."  -> bug_panic!  (shim `requires false`: must be proved unreachable)
         #   diagnosed violations -> diag_panic!  (shim `ensures false`: the build aborts)
@@ -256,10 +262,56 @@ def transform(text, it_kind, spec: ItemSpec, log):
 
 def norm(l): return re.sub(r'\s+', ' ', l.strip())
 
-def weave_item(repo, spec: ItemSpec, cache, log):
+def _balanced(lines):
+    d = 0
+    for l in lines:
+        for t in rustsrc.lex(l):
+            if t.kind == 'punct':
+                if t.text in '([{': d += 1
+                elif t.text in ')]}':
+                    d -= 1
+                    if d < 0: return False
+    return d == 0
+
+def _slide(ops, a, b):
+    """Diff-slider: a pure deletion/insertion whose block can be shifted over equal neighbouring lines is shifted to a
+    position where the block is bracket-balanced (`}` + `if x {` + `y;`  ->  `if x {` + `y;` + `}`), so that annotation chunks stay
+    attached to the lines of the right block."""
+    ops = [list(o) for o in ops]
+    k = 0
+    while k < len(ops):
+        tag, i1, i2, j1, j2 = ops[k]
+        if tag in ('delete', 'insert'):
+            seq, lo, hi = (a, i1, i2) if tag == 'delete' else (b, j1, j2)
+            if not _balanced(seq[lo:hi]):
+                nxt = ops[k + 1] if k + 1 < len(ops) and ops[k + 1][0] == 'equal' else None
+                prv = ops[k - 1] if k > 0 and ops[k - 1][0] == 'equal' else None
+                d = None
+                if nxt:
+                    for t in range(1, nxt[2] - nxt[1] + 1):
+                        if seq[lo + t - 1] != seq[hi + t - 1]: break
+                        if _balanced(seq[lo + t:hi + t]): d = t; break
+                if d is None and prv:
+                    for t in range(1, prv[2] - prv[1] + 1):
+                        if seq[hi - t] != seq[lo - t]: break
+                        if _balanced(seq[lo - t:hi - t]): d = -t; break
+                if d is not None:
+                    ops[k] = [tag, i1 + d, i2 + d, j1 + d, j2 + d]
+                    if d > 0:
+                        nxt[1] += d; nxt[3] += d
+                        if prv: prv[2] += d; prv[4] += d
+                        else: ops.insert(k, ['equal', i1, i1 + d, j1, j1 + d]); k += 1
+                    else:
+                        prv[2] += d; prv[4] += d
+                        if nxt: nxt[1] += d; nxt[3] += d
+                        else: ops.insert(k + 1, ['equal', i2 + d, i2, j2 + d, j2])
+        k += 1
+    return [tuple(o) for o in ops if not (o[0] == 'equal' and o[1] == o[2])]
+
+def weave_item(repo, spec: ItemSpec, cache, log, unit_re=()):
     text, it = extract_item(repo, spec, cache)
     raw_hash = hashlib.sha256(text.encode()).hexdigest()[:16]
-    cur = [l for l in transform(text, it.kind, spec, log).split('\n') if l.strip()]
+    cur = [l for l in transform(text, it.kind, spec, log, unit_re).split('\n') if l.strip()]
     segs = split_template(spec.template)
     base = [c[1] for _, c in segs if c is not None]
     bn = [norm(l) for l in base]; cn = [norm(l) for l in cur]
@@ -274,7 +326,7 @@ def weave_item(repo, spec: ItemSpec, cache, log):
             if l is not None: out.append((('code', spec.path), l))
         return out, info
     sm = difflib.SequenceMatcher(a=bn, b=cn, autojunk=False)
-    for tag, i1, i2, j1, j2 in sm.get_opcodes():
+    for tag, i1, i2, j1, j2 in _slide(sm.get_opcodes(), bn, cn):
         if tag == 'equal':
             for k in range(i2 - i1):
                 emit_chunk(segs[i1 + k][0]); out.append((('code', spec.path), cur[j1 + k]))
@@ -316,7 +368,7 @@ def generate(repo, vc_path, out_path):
             ilines, iinfo = import_interface(repo, os.path.join(os.path.dirname(vc_path), sec['unit'] + '.vc'), sec, cache)
             lines += ilines; imports.append(iinfo)
         else:
-            out, info = weave_item(repo, sec, cache, log)
+            out, info = weave_item(repo, sec, cache, log, u.unit_re)
             items.append(info)
             lines += out
     text = '\n'.join(t for _, t in lines) + '\n'
@@ -376,7 +428,7 @@ def import_interface(repo, vc_path, opts, cache):
             sub, _ = import_interface(repo, os.path.join(os.path.dirname(vc_path), sec['unit'] + '.vc'), sec, cache)
             out += [((o[0], o[1], o[2]) if o[0] == 'import' else ('import', u.name, 0), t) for o, t in sub]
         else:
-            woven, info = weave_item(repo, sec, cache, log)
+            woven, info = weave_item(repo, sec, cache, log, u.unit_re)
             if info['kind'] != 'fn':
                 out += [(('import', u.name, sec.vc_line), t) for _, t in woven]
                 continue
@@ -402,7 +454,7 @@ def learn_report(repo, vc_path):
         log = []
         try:
             text, it = extract_item(repo, sec, cache)
-            cur = [l for l in transform(text, it.kind, sec, log).split('\n') if l.strip()]
+            cur = [l for l in transform(text, it.kind, sec, log, u.unit_re).split('\n') if l.strip()]
         except WeaveError as e:
             print('!!', sec.path, e); ok = False; continue
         segs = split_template(sec.template)
